@@ -1,6 +1,8 @@
 import G3D.Props.C10
+import G3D.Props.Classes
 #print axioms G3D.Props.C10.distance_is_minimum
 #print axioms G3D.Props.C10.distance_symm
 #print axioms G3D.Props.C10.distance_zero_iff_meet
 #print axioms G3D.Props.C10.distance_dispatch_documented
 #print axioms G3D.Props.C10.distance_dispatch_rest_raises
+#print axioms G3D.Props.Classes.geobody_forwards
